@@ -5,6 +5,10 @@ use crate::rc::{AssociatedRefPtr, RcDeref, RcDerefMut};
 pub struct BehaviorSubject<Item, Subject: AssociatedRefPtr> {
   pub(crate) subject: Subject,
   pub(crate) value: Subject::Rc<Item>,
+  // held while a value is stored and broadcast, so that concurrent producers
+  // cannot interleave the two steps (the stored value would then differ from
+  // the one delivered last).
+  pub(crate) emitting: Subject::Rc<()>,
 }
 
 impl<Item, Subject: Default + AssociatedRefPtr> BehaviorSubject<Item, Subject> {
@@ -12,6 +16,7 @@ impl<Item, Subject: Default + AssociatedRefPtr> BehaviorSubject<Item, Subject> {
     Self {
       subject: <_>::default(),
       value: value.into(),
+      emitting: ().into(),
     }
   }
 }
@@ -24,6 +29,7 @@ where
 {
   #[inline]
   fn next(&mut self, value: Item) {
+    let _emitting = self.emitting.rc_deref_mut();
     *self.value.rc_deref_mut() = value.clone();
     Observer::next(&mut self.subject, value);
   }
